@@ -5,7 +5,9 @@
 //                        <id> <kind> <storage> <len> <pattern-hex> <meta-hex> <init-state>
 //   exe <ops-file>       op line:  <prefix-hex> <id> <kind> <storage> <len> <pattern-hex> <meta-hex> <init-state> <msg>...
 //                        <prefix-hex> = address of the object the port belongs to: `/` (the port table is
-//                        dispatched directly), `/sub/`, `/flat/` or `/<200 letters>/` (through Top::ports and rRecur)
+//                        dispatched directly), `/sub/`, `/flat/` or `/<200 letters>/` (through Top::ports and rRecur),
+//                        `/voice<k>/`, `/bank<k>/`, `/fl<k>/` (element k of an enumerated sub-tree: through Rack::ports and
+//                        rRecurs) or the same below `/rack` (through Top::ports, rRecur, then rRecurs)
 //                        (the harness uses the prefix, <id> and the messages, and checks the
 //                        description tokens against its own table; the driver uses the description)
 //     msg tokens:  [<digits>@]<arg>[+<arg>...]   arg = q | i<dec> | c<dec> | f<hex8> | T | F | s<hex> | S<hex>
@@ -15,7 +17,8 @@
 //             sorted multiset (the property fixes no order); integer tags are printed as `i`
 //             (`c` and `i` carry the same value); broadcasts at the port's own address are
 //             left out when the message did not change the stored value (the property speaks
-//             about changes only)
+//             about changes only); `R:-:-` / `B:-:-` = an empty message (RtData::reply/broadcast could not format
+//             the message into its buffer)
 //     state : `,`-joined element values of the port's own field (ints decimal, floats hex8,
 //             bools 0/1, strings = hex of the C string in the buffer, `!<hex of the buffer>`
 //             when the buffer holds no terminator)
@@ -40,6 +43,7 @@ struct Voice {
     float gain;
 };
 
+#define HUGECAP 8300
 #define LONGNAME abcdefghijabcdefghijabcdefghijabcdefghijabcdefghijabcdefghijabcdefghijabcdefghijabcdefghijabcdefghijabcdefghijabcdefghijabcdefghijabcdefghijabcdefghijabcdefghijabcdefghijabcdefghijabcdefghijabcdefghij
 
 struct Obj {
@@ -131,6 +135,63 @@ struct Obj {
     float afsp[3];
     int ais[2];
     int g26;
+    // one port per arity of the DOC() expansion table (d<k>, e<k>: k macro arguments incl. the doc string)
+    int d1;
+    float d2;
+    int d3x[2];
+    float d4x[3];
+    int d5;
+    float d6;
+    int d7x[3];
+    float d8x[4];
+    int d9;
+    float d10;
+    int d11x[4];
+    float d12x[2];
+    int d13;
+    float d14;
+    int d15x[2];
+    float d16x[3];
+    int d17;
+    float d18;
+    int d19x[3];
+    float d20x[4];
+    int d21;
+    float d22;
+    int d23x[4];
+    float d24x[2];
+    int e2;
+    int e3x[2];
+    int e4;
+    int e5x[4];
+    int e6;
+    int e7x[3];
+    int e8;
+    int e9x[2];
+    int e10;
+    int e11x[4];
+    int e12;
+    int e13x[3];
+    int e14;
+    int e15x[2];
+    int e16;
+    int e17x[4];
+    int e18;
+    int e19x[3];
+    int e20;
+    int e21x[2];
+    int e22;
+    int e23x[4];
+    int e24;
+    int g27;
+    // rLogWithLogmin, rParams (rArray + alias port), rArray
+    float pfl;
+    int prm[5];
+    int arr[4];
+    int g28;
+    // a string whose reply / broadcast is larger than the formatting buffer of RtData::reply/broadcast
+    char strhuge[HUGECAP];
+    int g29;
 
     Obj()
     {
@@ -169,6 +230,58 @@ struct Obj {
         pfs = 1.0f; pfd = 0.5f; pis = 3; pos = 1;
         afsp[0] = 0.f; afsp[1] = 0.5f; afsp[2] = -1.f;
         ais[0] = 1; ais[1] = 2;
+        d1 = 1;
+        d2 = 2.5f;
+        for(int i = 0; i < 2; ++i) d3x[i] = i + 3;
+        for(int i = 0; i < 3; ++i) d4x[i] = 0.5f * i;
+        d5 = 0;
+        d6 = 0.5f;
+        for(int i = 0; i < 3; ++i) d7x[i] = i + 3;
+        for(int i = 0; i < 4; ++i) d8x[i] = 0.5f * i;
+        d9 = 4;
+        d10 = 1.5f;
+        for(int i = 0; i < 4; ++i) d11x[i] = i + 3;
+        for(int i = 0; i < 2; ++i) d12x[i] = 0.5f * i;
+        d13 = 3;
+        d14 = 2.5f;
+        for(int i = 0; i < 2; ++i) d15x[i] = i + 3;
+        for(int i = 0; i < 3; ++i) d16x[i] = 0.5f * i;
+        d17 = 2;
+        d18 = 0.5f;
+        for(int i = 0; i < 3; ++i) d19x[i] = i + 3;
+        for(int i = 0; i < 4; ++i) d20x[i] = 0.5f * i;
+        d21 = 1;
+        d22 = 1.5f;
+        for(int i = 0; i < 4; ++i) d23x[i] = i + 3;
+        for(int i = 0; i < 2; ++i) d24x[i] = 0.5f * i;
+        e2 = 0;
+        for(int i = 0; i < 2; ++i) e3x[i] = 0;
+        e4 = 0;
+        for(int i = 0; i < 4; ++i) e5x[i] = 0;
+        e6 = 0;
+        for(int i = 0; i < 3; ++i) e7x[i] = 0;
+        e8 = 0;
+        for(int i = 0; i < 2; ++i) e9x[i] = 0;
+        e10 = 0;
+        for(int i = 0; i < 4; ++i) e11x[i] = 0;
+        e12 = 0;
+        for(int i = 0; i < 3; ++i) e13x[i] = 0;
+        e14 = 0;
+        for(int i = 0; i < 2; ++i) e15x[i] = 0;
+        e16 = 0;
+        for(int i = 0; i < 4; ++i) e17x[i] = 0;
+        e18 = 0;
+        for(int i = 0; i < 3; ++i) e19x[i] = 0;
+        e20 = 0;
+        for(int i = 0; i < 2; ++i) e21x[i] = 0;
+        e22 = 0;
+        for(int i = 0; i < 4; ++i) e23x[i] = 0;
+        e24 = 0;
+        pfl = 2.0f;
+        for(int i = 0; i < 5; ++i) prm[i] = 10 * i;
+        for(int i = 0; i < 4; ++i) arr[i] = 3 - i;
+        memset(strhuge, 0, sizeof(strhuge)); strcpy(strhuge, "huge");
+        g27 = g28 = g29 = 0x5a5a5a5a;
         g19 = g20 = g21 = g22 = g23 = g24 = g25 = g26 = 0x5a5a5a5a;
         g0 = g1 = g2 = g3 = g4 = g5 = g6 = g6b = g7 = g8 = g9 = g10 = g11 = g12 = g13 = g14 = g15 = g16 = g17 = g18 = 0x5a5a5a5a;
     }
@@ -277,6 +390,60 @@ const rtosc::Ports Obj::ports = {
     rOption(pos, rSpecial(off), rOptions(x, y, z), rLinear(0, 2), "rSpecial in front of the map"),
     rArrayF(afsp, 3, rNoDefaults, rSpecial(disable), rLinear(-1, 1), "rSpecial"),
     rArrayI(ais, 2, rSpecial(x), rShort("s"), rLinear(-3, 3), "rSpecial"),
+    // DOC() with 1..24 arguments (one expansion table entry DOC_IMP<k> per arity): numeric ports with the declared
+    // minimum and maximum at varying positions, option ports where every argument in front of the doc string is
+    // observable (rOpt entries and the range)
+    rParamI(d1, "DOC arity 1"),
+    rParamF(d2, rLinear(-4.25, 7.5), "DOC arity 2"),
+    rArrayI(d3x, 2, rMap(min, -5), rMap(max, 10), "DOC arity 3"),
+    rArrayF(d4x, 3, rMap(unit, u0), rMap(min, -6.25), rMap(max, 13.5), "DOC arity 4"),
+    rParamI(d5, rMap(max, 16), rProp(tag1), rMap(min, -7), rMap(logmin, 3), "DOC arity 5"),
+    rParamF(d6, rMap(min, -8.25), rDefaultDepends(dep1), rMap(logmin, 2), rMap(max, 19.5), rShort("s4"), "DOC arity 6"),
+    rArrayI(d7x, 3, rDefaultDepends(dep0), rMap(logmin, 1), rProp(alias2), rMap(max, 22), rSpecial(sp4), rMap(min, -9), "DOC arity 7"),
+    rArrayF(d8x, 4, rMap(logmin, 0), rProp(alias1), rShort("s2"), rMap(max, 25.5), rCentered, rMap(min, -10.25), rMap(unit, u6), "DOC arity 8"),
+    rParamI(d9, rProp(alias0), rShort("s1"), rSpecial(sp2), rCentered, rDefault(4), rMap(unit, u5), rMap(min, -11), rMap(max, 28), "DOC arity 9"),
+    rParamF(d10, rShort("s0"), rMap(min, -12.25), rCentered, rDefault(3), rMap(max, 31.5), rNoDefaults, rProp(tag6), rDefaultDepends(dep7), rMap(logmin, 8), "DOC arity 10"),
+    rArrayI(d11x, 4, rSpecial(sp0), rCentered, rDefault(2), rMap(min, -13), rNoDefaults, rMap(max, 34), rDefaultDepends(dep6), rMap(logmin, 7), rProp(alias8), rShort("s9"), "DOC arity 11"),
+    rArrayF(d12x, 2, rMap(max, 37.5), rDefault(1), rMap(unit, u2), rNoDefaults, rProp(tag4), rMap(min, -14.25), rMap(logmin, 6), rProp(alias7), rShort("s8"), rSpecial(sp9), rCentered, "DOC arity 12"),
+    rParamI(d13, rDefault(0), rMap(unit, u1), rNoDefaults, rProp(tag3), rDefaultDepends(dep4), rMap(logmin, 5), rProp(alias6), rShort("s7"), rSpecial(sp8), rCentered, rMap(max, 40), rMap(min, -15), "DOC arity 13"),
+    rParamF(d14, rMap(unit, u0), rNoDefaults, rProp(tag2), rDefaultDepends(dep3), rMap(logmin, 4), rProp(alias5), rShort("s6"), rSpecial(sp7), rMap(max, 43.5), rDefault(9), rMap(min, -16.25), rNoDefaults, rProp(tag12), "DOC arity 14"),
+    rArrayI(d15x, 2, rNoDefaults, rProp(tag1), rMap(min, -17), rMap(logmin, 3), rProp(alias4), rShort("s5"), rSpecial(sp6), rCentered, rDefault(8), rMap(unit, u9), rNoDefaults, rProp(tag11), rDefaultDepends(dep12), rMap(max, 46), "DOC arity 15"),
+    rArrayF(d16x, 3, rProp(tag0), rDefaultDepends(dep1), rMap(logmin, 2), rProp(alias3), rShort("s4"), rSpecial(sp5), rCentered, rDefault(7), rMap(min, -18.25), rNoDefaults, rMap(max, 49.5), rDefaultDepends(dep11), rMap(logmin, 12), rProp(alias13), rShort("s14"), "DOC arity 16"),
+    rParamI(d17, rDefaultDepends(dep0), rMap(logmin, 1), rMap(max, 52), rShort("s3"), rSpecial(sp4), rCentered, rDefault(6), rMap(unit, u7), rMap(min, -19), rProp(tag9), rDefaultDepends(dep10), rMap(logmin, 11), rProp(alias12), rShort("s13"), rSpecial(sp14), rCentered, "DOC arity 17"),
+    rParamF(d18, rMap(min, -20.25), rProp(alias1), rMap(max, 55.5), rSpecial(sp3), rCentered, rDefault(5), rMap(unit, u6), rNoDefaults, rProp(tag8), rDefaultDepends(dep9), rMap(logmin, 10), rProp(alias11), rShort("s12"), rSpecial(sp13), rCentered, rDefault(15), rMap(unit, u16), "DOC arity 18"),
+    rArrayI(d19x, 3, rProp(alias0), rShort("s1"), rSpecial(sp2), rMap(min, -21), rDefault(4), rMap(unit, u5), rNoDefaults, rProp(tag7), rDefaultDepends(dep8), rMap(logmin, 9), rMap(max, 58), rShort("s11"), rSpecial(sp12), rCentered, rDefault(14), rMap(unit, u15), rNoDefaults, rProp(tag17), "DOC arity 19"),
+    rArrayF(d20x, 4, rMap(max, 61.5), rSpecial(sp1), rCentered, rDefault(3), rMap(unit, u4), rNoDefaults, rProp(tag6), rDefaultDepends(dep7), rMap(min, -22.25), rProp(alias9), rShort("s10"), rSpecial(sp11), rCentered, rDefault(13), rMap(unit, u14), rNoDefaults, rProp(tag16), rDefaultDepends(dep17), rMap(logmin, 18), "DOC arity 20"),
+    rParamI(d21, rSpecial(sp0), rCentered, rDefault(2), rMap(unit, u3), rNoDefaults, rProp(tag5), rMap(min, -23), rMap(logmin, 7), rProp(alias8), rShort("s9"), rSpecial(sp10), rCentered, rMap(max, 64), rMap(unit, u13), rNoDefaults, rProp(tag15), rDefaultDepends(dep16), rMap(logmin, 17), rProp(alias18), rShort("s19"), "DOC arity 21"),
+    rParamF(d22, rCentered, rDefault(1), rMap(unit, u2), rNoDefaults, rProp(tag4), rDefaultDepends(dep5), rMap(logmin, 6), rProp(alias7), rShort("s8"), rSpecial(sp9), rCentered, rDefault(11), rMap(min, -24.25), rNoDefaults, rProp(tag14), rDefaultDepends(dep15), rMap(logmin, 16), rProp(alias17), rMap(max, 67.5), rSpecial(sp19), rCentered, "DOC arity 22"),
+    rArrayI(d23x, 4, rDefault(0), rMap(unit, u1), rNoDefaults, rProp(tag3), rDefaultDepends(dep4), rMap(logmin, 5), rProp(alias6), rShort("s7"), rSpecial(sp8), rCentered, rDefault(10), rMap(unit, u11), rNoDefaults, rProp(tag13), rMap(min, -25), rMap(logmin, 15), rProp(alias16), rShort("s17"), rSpecial(sp18), rMap(max, 70), rDefault(20), rMap(unit, u21), "DOC arity 23"),
+    rArrayF(d24x, 2, rMap(unit, u0), rNoDefaults, rProp(tag2), rDefaultDepends(dep3), rMap(logmin, 4), rProp(alias5), rShort("s6"), rSpecial(sp7), rCentered, rDefault(9), rMap(unit, u10), rNoDefaults, rProp(tag12), rDefaultDepends(dep13), rMap(logmin, 14), rProp(alias15), rShort("s16"), rSpecial(sp17), rCentered, rDefault(19), rMap(max, 73.5), rNoDefaults, rMap(min, -26.25), "DOC arity 24"),
+    rOption(e2, rOptions(w0, w1, w2), "DOC arity 2, options"),
+    rArrayOption(e3x, 2, rLinear(0, 0), rOpt(0, w0), "DOC arity 3, options"),
+    rOption(e4, rOpt(0, w0), rOpt(1, w1), rLinear(0, 0), "DOC arity 4, options"),
+    rArrayOption(e5x, 4, rOpt(0, w0), rOpt(1, w1), rLinear(0, 1), rOpt(2, w2), "DOC arity 5, options"),
+    rOption(e6, rOpt(0, w0), rLinear(0, 2), rOpt(1, w1), rOpt(2, w2), rOpt(3, w3), "DOC arity 6, options"),
+    rArrayOption(e7x, 3, rOpt(0, w0), rOpt(1, w1), rOpt(2, w2), rOpt(3, w3), rOpt(4, w4), rLinear(0, 3), "DOC arity 7, options"),
+    rOption(e8, rOpt(0, w0), rOpt(1, w1), rOpt(2, w2), rOpt(3, w3), rOpt(4, w4), rOpt(5, w5), rLinear(0, 4), "DOC arity 8, options"),
+    rArrayOption(e9x, 2, rOpt(0, w0), rOpt(1, w1), rOpt(2, w2), rOpt(3, w3), rOpt(4, w4), rOpt(5, w5), rOpt(6, w6), rLinear(0, 5), "DOC arity 9, options"),
+    rOption(e10, rLinear(0, 6), rOpt(0, w0), rOpt(1, w1), rOpt(2, w2), rOpt(3, w3), rOpt(4, w4), rOpt(5, w5), rOpt(6, w6), rOpt(7, w7), "DOC arity 10, options"),
+    rArrayOption(e11x, 4, rOpt(0, w0), rOpt(1, w1), rOpt(2, w2), rLinear(0, 7), rOpt(3, w3), rOpt(4, w4), rOpt(5, w5), rOpt(6, w6), rOpt(7, w7), rOpt(8, w8), "DOC arity 11, options"),
+    rOption(e12, rOpt(0, w0), rOpt(1, w1), rOpt(2, w2), rOpt(3, w3), rLinear(0, 8), rOpt(4, w4), rOpt(5, w5), rOpt(6, w6), rOpt(7, w7), rOpt(8, w8), rOpt(9, w9), "DOC arity 12, options"),
+    rArrayOption(e13x, 3, rOpt(0, w0), rOpt(1, w1), rOpt(2, w2), rOpt(3, w3), rOpt(4, w4), rOpt(5, w5), rOpt(6, w6), rLinear(0, 9), rOpt(7, w7), rOpt(8, w8), rOpt(9, w9), rOpt(10, w10), "DOC arity 13, options"),
+    rOption(e14, rOpt(0, w0), rOpt(1, w1), rOpt(2, w2), rOpt(3, w3), rOpt(4, w4), rOpt(5, w5), rOpt(6, w6), rOpt(7, w7), rOpt(8, w8), rLinear(0, 10), rOpt(9, w9), rOpt(10, w10), rOpt(11, w11), "DOC arity 14, options"),
+    rArrayOption(e15x, 2, rOpt(0, w0), rOpt(1, w1), rOpt(2, w2), rLinear(0, 11), rOpt(3, w3), rOpt(4, w4), rOpt(5, w5), rOpt(6, w6), rOpt(7, w7), rOpt(8, w8), rOpt(9, w9), rOpt(10, w10), rOpt(11, w11), rOpt(12, w12), "DOC arity 15, options"),
+    rOption(e16, rOpt(0, w0), rOpt(1, w1), rOpt(2, w2), rOpt(3, w3), rOpt(4, w4), rOpt(5, w5), rOpt(6, w6), rLinear(0, 12), rOpt(7, w7), rOpt(8, w8), rOpt(9, w9), rOpt(10, w10), rOpt(11, w11), rOpt(12, w12), rOpt(13, w13), "DOC arity 16, options"),
+    rArrayOption(e17x, 4, rOpt(0, w0), rOpt(1, w1), rOpt(2, w2), rOpt(3, w3), rOpt(4, w4), rOpt(5, w5), rOpt(6, w6), rOpt(7, w7), rOpt(8, w8), rLinear(0, 13), rOpt(9, w9), rOpt(10, w10), rOpt(11, w11), rOpt(12, w12), rOpt(13, w13), rOpt(14, w14), "DOC arity 17, options"),
+    rOption(e18, rOpt(0, w0), rOpt(1, w1), rOpt(2, w2), rOpt(3, w3), rOpt(4, w4), rOpt(5, w5), rOpt(6, w6), rOpt(7, w7), rOpt(8, w8), rOpt(9, w9), rOpt(10, w10), rOpt(11, w11), rOpt(12, w12), rOpt(13, w13), rOpt(14, w14), rOpt(15, w15), rLinear(0, 14), "DOC arity 18, options"),
+    rArrayOption(e19x, 3, rOpt(0, w0), rOpt(1, w1), rOpt(2, w2), rOpt(3, w3), rOpt(4, w4), rOpt(5, w5), rOpt(6, w6), rOpt(7, w7), rLinear(0, 15), rOpt(8, w8), rOpt(9, w9), rOpt(10, w10), rOpt(11, w11), rOpt(12, w12), rOpt(13, w13), rOpt(14, w14), rOpt(15, w15), rOpt(16, w16), "DOC arity 19, options"),
+    rOption(e20, rOpt(0, w0), rOpt(1, w1), rOpt(2, w2), rLinear(0, 16), rOpt(3, w3), rOpt(4, w4), rOpt(5, w5), rOpt(6, w6), rOpt(7, w7), rOpt(8, w8), rOpt(9, w9), rOpt(10, w10), rOpt(11, w11), rOpt(12, w12), rOpt(13, w13), rOpt(14, w14), rOpt(15, w15), rOpt(16, w16), rOpt(17, w17), "DOC arity 20, options"),
+    rArrayOption(e21x, 2, rOpt(0, w0), rOpt(1, w1), rOpt(2, w2), rLinear(0, 17), rOpt(3, w3), rOpt(4, w4), rOpt(5, w5), rOpt(6, w6), rOpt(7, w7), rOpt(8, w8), rOpt(9, w9), rOpt(10, w10), rOpt(11, w11), rOpt(12, w12), rOpt(13, w13), rOpt(14, w14), rOpt(15, w15), rOpt(16, w16), rOpt(17, w17), rOpt(18, w18), "DOC arity 21, options"),
+    rOption(e22, rOpt(0, w0), rOpt(1, w1), rLinear(0, 18), rOpt(2, w2), rOpt(3, w3), rOpt(4, w4), rOpt(5, w5), rOpt(6, w6), rOpt(7, w7), rOpt(8, w8), rOpt(9, w9), rOpt(10, w10), rOpt(11, w11), rOpt(12, w12), rOpt(13, w13), rOpt(14, w14), rOpt(15, w15), rOpt(16, w16), rOpt(17, w17), rOpt(18, w18), rOpt(19, w19), "DOC arity 22, options"),
+    rArrayOption(e23x, 4, rOpt(0, w0), rOpt(1, w1), rOpt(2, w2), rOpt(3, w3), rOpt(4, w4), rOpt(5, w5), rOpt(6, w6), rOpt(7, w7), rLinear(0, 19), rOpt(8, w8), rOpt(9, w9), rOpt(10, w10), rOpt(11, w11), rOpt(12, w12), rOpt(13, w13), rOpt(14, w14), rOpt(15, w15), rOpt(16, w16), rOpt(17, w17), rOpt(18, w18), rOpt(19, w19), rOpt(20, w20), "DOC arity 23, options"),
+    rOption(e24, rOpt(0, w0), rOpt(1, w1), rOpt(2, w2), rOpt(3, w3), rOpt(4, w4), rOpt(5, w5), rOpt(6, w6), rOpt(7, w7), rOpt(8, w8), rOpt(9, w9), rOpt(10, w10), rOpt(11, w11), rOpt(12, w12), rOpt(13, w13), rOpt(14, w14), rOpt(15, w15), rOpt(16, w16), rOpt(17, w17), rOpt(18, w18), rOpt(19, w19), rOpt(20, w20), rOpt(21, w21), rLinear(0, 20), "DOC arity 24, options"),
+    rParamF(pfl, rLogWithLogmin(0.5, 100, 0.01), "rLogWithLogmin"),
+    rParams(prm, 5, rLinear(0, 50), "rParams: rArray plus an alias port"),
+    rArray(arr, 4, rLinear(-2, 9), "rArray"),
+    rString(strhuge, HUGECAP, "string larger than the reply buffer"),
 };
 #undef rObject
 
@@ -308,10 +475,65 @@ const rtosc::Ports Flat::ports = {
 };
 #undef rObject
 
+// the element type of the enumerated sub-trees (rRecurs): int, array, string, float, toggle and option ports
+struct Vo {
+    int vvol;
+    int g0;
+    int varr[3];
+    int g1;
+    char vname[8];
+    int g2;
+    float vgain;
+    bool von;
+    float vpan[2];
+    int vwave;
+    int g3;
+    Vo()
+    {
+        vvol = 3; varr[0] = 5; varr[1] = 50; varr[2] = 100;
+        memset(vname, 0, sizeof(vname)); strcpy(vname, "voice");
+        vgain = 0.5f; von = true; vpan[0] = -0.25f; vpan[1] = 0.25f; vwave = 1;
+        g0 = g1 = g2 = g3 = 0x5a5a5a5a;
+    }
+    static const rtosc::Ports ports;
+};
+#define rObject Vo
+const rtosc::Ports Vo::ports = {
+    rParamI(vvol, rLinear(-10, 10), "int"),
+    rArrayI(varr, 3, rLinear(0, 100), "int array"),
+    rString(vname, 8, "string"),
+    rParamF(vgain, rLinear(-1, 1), "float"),
+    rToggle(von, "toggle"),
+    rArrayF(vpan, 2, rLinear(-1, 1), "float array"),
+    rOption(vwave, rOptions(sine, saw, square), rLinear(0, 2), "option"),
+};
+#undef rObject
+
+// enumerated sub-trees: `voice<k>/`, `bank<k>/` (two-digit indices), `fl<k>/` (hashed element table)
+struct Rack {
+    int g0;
+    Vo voice[3];
+    int g1;
+    Vo bank[12];
+    int g2;
+    Flat fl[2];
+    int g3;
+    Rack() { g0 = g1 = g2 = g3 = 0x5a5a5a5a; }
+    static const rtosc::Ports ports;
+};
+#define rObject Rack
+const rtosc::Ports Rack::ports = {
+    rRecurs(voice, 3, "three voices"),
+    rRecurs(bank, 12, "twelve voices"),
+    rRecurs(fl, 2, "elements with a hashed table"),
+};
+#undef rObject
+
 struct Top {
     Obj sub;
     Obj LONGNAME;
     Flat flat;
+    Rack rack;
     static const rtosc::Ports ports;
 };
 #define rObject Top
@@ -319,13 +541,14 @@ const rtosc::Ports Top::ports = {
     rRecur(sub, "the object"),
     rRecur(LONGNAME, "the same object type below a long address"),
     rRecur(flat, "the table without array ports"),
+    rRecur(rack, "the enumerated sub-trees"),
 };
 #undef rObject
 
 // ---------------------------------------------------------------------------------
 struct Desc {
     const char *id;
-    int tbl;              // 0 = Obj::ports, 1 = Flat::ports
+    int tbl;              // 0 = Obj::ports, 1 = Flat::ports, 2 = Vo::ports
     char kind;            // P F I O T S  f t i o m
     const char *storage;  // i8 u8 i16 i32 f32 b s
     size_t off, elem, len, stride;   // element k lives at off + k*stride, elem bytes
@@ -334,6 +557,8 @@ struct Desc {
 #define DA(name, kind, st) {#name, 0, kind, st, offsetof(Obj, name), sizeof(((Obj *)0)->name[0]), sizeof(((Obj *)0)->name) / sizeof(((Obj *)0)->name[0]), sizeof(((Obj *)0)->name[0])}
 #define H(name, kind, st) {#name, 1, kind, st, offsetof(Flat, name), sizeof(((Flat *)0)->name), 1, sizeof(((Flat *)0)->name)}
 #define HA(name, kind, st) {#name, 1, kind, st, offsetof(Flat, name), sizeof(((Flat *)0)->name[0]), sizeof(((Flat *)0)->name) / sizeof(((Flat *)0)->name[0]), sizeof(((Flat *)0)->name[0])}
+#define VD(name, kind, st) {#name, 2, kind, st, offsetof(Vo, name), sizeof(((Vo *)0)->name), 1, sizeof(((Vo *)0)->name)}
+#define VA(name, kind, st) {#name, 2, kind, st, offsetof(Vo, name), sizeof(((Vo *)0)->name[0]), sizeof(((Vo *)0)->name) / sizeof(((Vo *)0)->name[0]), sizeof(((Vo *)0)->name[0])}
 static const Desc descs[] = {
     D(pc, 'P', "i8"), D(puc, 'P', "u8"), D(pcn, 'P', "i8"), D(pcu, 'P', "i8"), D(pcs, 'P', "i16"),
     D(pf0, 'F', "f32"), D(pf1, 'F', "f32"), D(pf2, 'F', "f32"), D(pf3, 'F', "f32"), D(pf4, 'F', "f32"), D(pf5, 'F', "f32"),
@@ -356,6 +581,56 @@ static const Desc descs[] = {
     DA(abig, 'i', "i32"), DA(tbig, 't', "b"), DA(fbig, 'f', "f32"), DA(strbig, 'S', "s"),
     DA(aib, 'i', "i32"), DA(aicb, 'i', "i8"), D(psb, 'I', "i16"), D(pucn, 'P', "u8"), D(pcb, 'P', "i8"),
     D(pfs, 'F', "f32"), D(pfd, 'F', "f32"), D(pis, 'I', "i32"), D(pos, 'O', "i32"), DA(afsp, 'f', "f32"), DA(ais, 'i', "i32"),
+    D(d1, 'I', "i32"),
+    D(d2, 'F', "f32"),
+    DA(d3x, 'i', "i32"),
+    DA(d4x, 'f', "f32"),
+    D(d5, 'I', "i32"),
+    D(d6, 'F', "f32"),
+    DA(d7x, 'i', "i32"),
+    DA(d8x, 'f', "f32"),
+    D(d9, 'I', "i32"),
+    D(d10, 'F', "f32"),
+    DA(d11x, 'i', "i32"),
+    DA(d12x, 'f', "f32"),
+    D(d13, 'I', "i32"),
+    D(d14, 'F', "f32"),
+    DA(d15x, 'i', "i32"),
+    DA(d16x, 'f', "f32"),
+    D(d17, 'I', "i32"),
+    D(d18, 'F', "f32"),
+    DA(d19x, 'i', "i32"),
+    DA(d20x, 'f', "f32"),
+    D(d21, 'I', "i32"),
+    D(d22, 'F', "f32"),
+    DA(d23x, 'i', "i32"),
+    DA(d24x, 'f', "f32"),
+    D(e2, 'O', "i32"),
+    DA(e3x, 'o', "i32"),
+    D(e4, 'O', "i32"),
+    DA(e5x, 'o', "i32"),
+    D(e6, 'O', "i32"),
+    DA(e7x, 'o', "i32"),
+    D(e8, 'O', "i32"),
+    DA(e9x, 'o', "i32"),
+    D(e10, 'O', "i32"),
+    DA(e11x, 'o', "i32"),
+    D(e12, 'O', "i32"),
+    DA(e13x, 'o', "i32"),
+    D(e14, 'O', "i32"),
+    DA(e15x, 'o', "i32"),
+    D(e16, 'O', "i32"),
+    DA(e17x, 'o', "i32"),
+    D(e18, 'O', "i32"),
+    DA(e19x, 'o', "i32"),
+    D(e20, 'O', "i32"),
+    DA(e21x, 'o', "i32"),
+    D(e22, 'O', "i32"),
+    DA(e23x, 'o', "i32"),
+    D(e24, 'O', "i32"),
+    D(pfl, 'F', "f32"), DA(prm, 'i', "i32"), DA(arr, 'i', "i32"), DA(strhuge, 'S', "s"),
+    VD(vvol, 'I', "i32"), VA(varr, 'i', "i32"), VA(vname, 'S', "s"), VD(vgain, 'F', "f32"), VD(von, 'T', "b"), VA(vpan, 'f', "f32"),
+    VD(vwave, 'O', "i32"),
     H(hc, 'P', "i8"), H(hf, 'F', "f32"), H(hi, 'I', "i32"), H(ho, 'O', "i32"), H(ht, 'T', "b"), HA(hs, 'S', "s"),
 };
 static const size_t ndescs = sizeof(descs) / sizeof(descs[0]);
@@ -370,8 +645,8 @@ static const Desc *find_desc(const std::string &id)
 static const rtosc::Port *find_port(const Desc &d)
 {
     size_t n = strlen(d.id);
-    for(const rtosc::Port &p : (d.tbl ? Flat::ports : Obj::ports))
-        if(!strncmp(p.name, d.id, n) && (p.name[n] == ':' || p.name[n] == '#'))
+    for(const rtosc::Port &p : (d.tbl == 2 ? Vo::ports : d.tbl ? Flat::ports : Obj::ports))
+        if(!strncmp(p.name, d.id, n) && ((p.name[n] == ':' && p.name[n + 1] == ':') || p.name[n] == '#'))
             return &p;
     return NULL;
 }
@@ -437,6 +712,10 @@ struct Log : rtosc::RtData {
     {
         std::string e;
         e += what;
+        if(!msg[0]) {       // rtosc_vmessage could not format the message into RtData's buffer: empty message
+            ev.push_back(std::make_pair(std::string(), e + ":-:-"));
+            return;
+        }
         e += ":" + hexs(msg) + ":";
         std::string tags = rtosc_argument_string(msg);
         for(char &c : tags) if(c == 'c') c = 'i';
@@ -546,16 +825,36 @@ static std::string step(const std::string &line)
     // which object, and through which table is it reached?
     void *obj = NULL, *root = NULL;
     const rtosc::Ports *ports = NULL;
+    const rtosc::Ports *owntbl = d->tbl == 2 ? &Vo::ports : d->tbl ? &Flat::ports : &Obj::ports;
     if(prefix == "/") {
-        obj = d->tbl ? (void *)&top->flat : (void *)&top->sub;
+        obj = d->tbl == 2 ? (void *)&top->rack.voice[1] : d->tbl ? (void *)&top->flat : (void *)&top->sub;
         root = obj;
-        ports = d->tbl ? &Flat::ports : &Obj::ports;
-    } else {
+        ports = owntbl;
+    } else if(prefix == "/sub/" || prefix == "/flat/" || prefix == "/" STRINGIFY(LONGNAME) "/") {
         root = top;
         ports = &Top::ports;
-        if(prefix == "/sub/" && !d->tbl) obj = &top->sub;
-        else if(prefix == "/" STRINGIFY(LONGNAME) "/" && !d->tbl) obj = &top->LONGNAME;
-        else if(prefix == "/flat/" && d->tbl) obj = &top->flat;
+        if(prefix == "/sub/" && d->tbl == 0) obj = &top->sub;
+        else if(prefix == "/" STRINGIFY(LONGNAME) "/" && d->tbl == 0) obj = &top->LONGNAME;
+        else if(prefix == "/flat/" && d->tbl == 1) obj = &top->flat;
+    } else {
+        // [/rack]/voice<k>/  [/rack]/bank<k>/  [/rack]/fl<k>/ : element k of an enumerated sub-tree (rRecurs)
+        std::string r = prefix;
+        if(r.compare(0, 6, "/rack/") == 0) { r = r.substr(5); root = top; ports = &Top::ports; }
+        else { root = &top->rack; ports = &Rack::ports; }
+        static const struct { const char *name; int tbl; size_t n; } subs[] = {{"/voice", 2, 3}, {"/bank", 2, 12}, {"/fl", 1, 2}};
+        for(const auto &sb : subs) {
+            size_t l = strlen(sb.name);
+            if(r.compare(0, l, sb.name) != 0 || d->tbl != sb.tbl) continue;
+            std::string dg = r.substr(l);
+            if(dg.size() < 2 || dg.size() > 7 || dg[dg.size() - 1] != '/') continue;
+            dg.erase(dg.size() - 1);
+            if(dg.find_first_not_of("0123456789") != std::string::npos) continue;
+            size_t k = strtoul(dg.c_str(), NULL, 10);
+            if(k >= sb.n) continue;
+            if(!strcmp(sb.name, "/voice")) obj = &top->rack.voice[k];
+            else if(!strcmp(sb.name, "/bank")) obj = &top->rack.bank[k];
+            else obj = &top->rack.fl[k];
+        }
     }
     if(!obj) { top->~Top(); ref->~Top(); free(mem); free(refmem); return "bad-op"; }
 
@@ -609,9 +908,12 @@ static std::string step(const std::string &line)
 int main(int argc, char **argv)
 {
     if(argc >= 2 && !strcmp(argv[1], "--table")) {
-        Obj o;
+        Obj *o = new Obj;
         Flat f;
-        for(size_t i = 0; i < ndescs; ++i) puts(describe(descs[i], descs[i].tbl ? (void *)&f : (void *)&o).c_str());
+        Vo v;
+        for(size_t i = 0; i < ndescs; ++i)
+            puts(describe(descs[i], descs[i].tbl == 2 ? (void *)&v : descs[i].tbl ? (void *)&f : (void *)o).c_str());
+        delete o;
         return 0;
     }
     return run_lines(argc, argv, step);
